@@ -11,6 +11,7 @@ mod eng;
 #[cfg(feature = "search")]
 mod graph;
 mod json;
+mod longgame;
 mod par;
 mod props;
 mod refchess;
